@@ -115,6 +115,11 @@ def run(ctx):
             raise RuntimeError("dataset could not be built/observed: %s\n%s" % (json.dumps(ds), r["error"]))
         if r.get("crashed"):
             continue
+        if r.get("full_error"):
+            ctx.fail({"component": "read", "terminal": "to_pandas", "what": "error", "scheme": ds["scheme"], "full_read": True},
+                     {"ds": ds, "prog": {"ops": [], "rd": ["to_pandas", None, {"kind": "default", "names": []}]}},
+                     "the full read of the dataset raised " + r["full_error"])
+            continue
         b = r["base"]
         ctx.count("row_groups", len(b["rgs"]))
         ctx.count("scheme/open", ds["scheme"] + "/" + ds["open"])
@@ -162,7 +167,7 @@ def run(ctx):
             ctx.correspondence("ReadSpec.spec_run rows ~ the oracle's selection (CPython)", case, mp_, p["oracle_rows"])
         # the implementation model against its own specification on concrete inputs (theorem C06_programs, extracted code)
         ctx.correspondence("extracted run ~ extracted spec_run (C06_programs on concrete inputs)", case, mi, ms)
-        if known and p["impl"][0] == "fail" and p["cls"]["component"] in ("multi-index", "nullable-index"):
+        if known and p["impl"][0] == "fail" and mi[0] == "ok":
             continue            # the real code raises here (open findings); the model describes the behaviour without the defect
         ctx.correspondence("Read.run ~ ParquetFile access program on the real code", case, R.align(mi, p["impl"]), p["impl"])
     ctx.extra["datasets"] = len(jobs)
@@ -221,6 +226,10 @@ def replay(rep):
         pf = R.open_dataset(ds, path)
         base = R.base_facts(ds, pf)
         print("dataset: %s" % json.dumps(ds))
+        if "full_error" in base:
+            print("row groups (descriptor class, num_rows, row ids): %s" % base["rgs"])
+            print("PROPERTY FAILS: the full read pf.to_pandas() raises\n" + base["full_error"])
+            return 1
         print("row groups (descriptor class, num_rows, row ids): %s" % base["rgs"])
         print("full read: columns %s index %s, row ids %s" % (base["full_cols"], base["full_index"], base["full_ids"]))
         print("program: %s" % json.dumps(prog))
